@@ -179,7 +179,7 @@ class Schedule:  # 0404
 
         self._full_schedule: OuterScheduleT | EmptyDictT = {}
 
-        self._payload_set: _PayloadSetT = EMPTY_PAYLOAD_SET  # Rx'd
+        self._payload_set: _PayloadSetT = list(EMPTY_PAYLOAD_SET)  # Rx'd (own copy)
         self._fragments: _FragmentSetT = []  # to Tx
 
         self._global_ver = 0  # None is a sentinel for 'dont know'
@@ -347,7 +347,7 @@ class Schedule:  # 0404
             return payload_set
 
         if payload[SZ_TOTAL_FRAGS] is None:  # zone has no schedule
-            payload_set = EMPTY_PAYLOAD_SET
+            payload_set = list(EMPTY_PAYLOAD_SET)  # a copy: sets are updated in place
             self._proc_payload_set(payload_set)
             return payload_set
 
